@@ -636,9 +636,35 @@ func hasStringPrefix(b []byte, prefix string) bool {
 // the scan. gjson materializes JSON numbers as float64, matching
 // encoding/json.
 func materializeRow(rowBytes []byte) (map[string]any, error) {
-	row, ok := gjson.Parse(string(rowBytes)).Value().(map[string]any)
+	row, ok := materializeValue(gjson.Parse(string(rowBytes))).(map[string]any)
 	if !ok {
 		return nil, fmt.Errorf("row is not a JSON object")
 	}
 	return row, nil
+}
+
+// materializeValue builds the Go value of a parsed JSON value. Containers are
+// walked here rather than through gjson's Result.Value, which keeps the FIRST
+// of duplicate object keys: encoding/json (the documented reference for
+// delivered rows) keeps the LAST, and rows can carry duplicate keys through
+// json.RawMessage or custom marshalers.
+func materializeValue(value gjson.Result) any {
+	switch {
+	case value.IsObject():
+		object := make(map[string]any)
+		value.ForEach(func(key, child gjson.Result) bool {
+			object[key.String()] = materializeValue(child)
+			return true
+		})
+		return object
+	case value.IsArray():
+		array := make([]any, 0)
+		value.ForEach(func(_, child gjson.Result) bool {
+			array = append(array, materializeValue(child))
+			return true
+		})
+		return array
+	default:
+		return value.Value()
+	}
 }
